@@ -138,6 +138,18 @@ func (x *c18) connect(group, id string) *stream {
 	return s
 }
 
+// openIn: does the client still hold an open stream (any generation, confirmed or not) of that group (and id)?
+func (x *c18) openIn(group, id string) bool {
+	x.smu.Lock()
+	defer x.smu.Unlock()
+	for _, s := range x.streams {
+		if s.group == group && (id == "" || s.id == id) && !s.eof.Load() && !s.byClient.Load() {
+			return true
+		}
+	}
+	return false
+}
+
 func (x *c18) disconnect(s *stream) {
 	s.byClient.Store(true)
 	s.cancel()
@@ -459,14 +471,27 @@ func (x *c18) judge(confirmed map[string]*stream, fail func(string, string, ...a
 			}
 		case target == nil && m.typ == "notify":
 			if m.ok.Load() || len(rc) > 0 {
-				fail("notify-misdirected", "notification %s addressed to %s/%s (not connected) was delivered", m.body, m.group, m.id)
+				// the client's idea of which stream is current may lag the server's (two connects of one id can be
+				// registered in the other order on a loaded machine): a notification that reached a stream carrying
+				// exactly that group and id went to the right listener
+				right := len(rc) > 0
+				for _, s := range rc {
+					if s.id != m.id || s.group != m.group {
+						right = false
+					}
+				}
+				if right || x.openIn(m.group, m.id) {
+					x.c.rep.Hit("ledger.notify-reached-unconfirmed-listener-with-that-id")
+				} else {
+					fail("notify-misdirected", "notification %s addressed to %s/%s (not connected) was delivered", m.body, m.group, m.id)
+				}
 			}
 		case target == nil && groupHas && !full:
 			if !m.ok.Load() || len(rc) != 1 {
 				fail("not-delivered-to-group", "message %s (%s to %s/%s): the group has connected listeners but the hand-off was reported %v (%v)", m.body, m.typ, m.group, m.id, m.ok.Load(), m.errs.Load())
 			}
 		case !groupHas:
-			if m.ok.Load() {
+			if m.ok.Load() && !x.openIn(m.group, "") {
 				fail("delivered-to-empty-group", "message %s to group %s without listeners was reported delivered", m.body, m.group)
 			}
 		}
